@@ -190,6 +190,46 @@ def run(ctx):
                     ctx.ok('R18.1', key, sampler.where(0), '%d abstract paths on the arc' % len(outs))
             else:
                 und += 1
+    # limits at exact multiples of a quarter turn (0, +-90, +-180, ... degrees are what people write): the cells above have
+    # positive width and leave a test like `span == 0.0` undecided, so these pairs are evaluated as points, every path definite
+    npts = 0
+    for kf in range(-4, 5):
+        for kt in range(-4, 5):
+            f, t_ = kf * math.pi / 2, kt * math.pi / 2
+            if kf == kt:
+                continue
+            # the arc as the constraints understand it: from < to is the plain interval (a full circle once it is 2*pi wide),
+            # from > to runs forward from `from` to `to` plus whole turns
+            span = (t_ - f) if f < t_ else (t_ - f) % TWO_PI
+            if span >= TWO_PI - 1e-9:
+                span = 0.0
+            I = Interp(prog, HANDLERS, fuel=100000, max_paths=4096)
+            I.gen_checks = []
+            key = 'point(from=%d*pi/2,to=%d*pi/2)' % (kf, kt)
+            try:
+                outs = I.run(sampler.path, [Iv(f), Iv(t_)])
+            except EmptyRange as e:
+                if span > 1e-9:
+                    ctx.violation('R18.2', key, sampler.where(0), sampler.path, 'the arc from %g to %g has positive width, yet %s: the call panics' % (f, t_, e))
+                continue
+            except absint.Undecided:
+                continue
+            except absint.Unsupported as e:
+                raise MachineryError('sampler could not be interpreted: %s' % e)
+            npts += 1
+            bad = None
+            for o in outs:
+                r = o.ret
+                if not isinstance(r, Iv):
+                    continue
+                if span < 1e-9:
+                    continue                      # a whole number of turns apart: from == to (mod 2*pi), the full circle
+                inside = any(r.lo + n * TWO_PI >= f - 1e-9 and r.hi + n * TWO_PI <= f + span + 1e-9 for n in range(-4, 5))
+                if not inside:
+                    bad = r
+            ctx.check(bad is None, 'R18.1', key, sampler.where(0), sampler.path,
+                      'for limits %g .. %g the sampler can return a value in %r, off the arc of width %g' % (f, t_, bad, span), found=repr(bad), detail='on the arc')
+    ctx.floor('R18.1 quarter-turn points', npts, 40)
     # from == to: the joint is unconstrained (e.g. the suppressed J6 of a 5-DOF robot, a URDF joint without limits);
     # sampling must still work (no empty range)
     for x in (0.0, 1.0, -2.5, 6.0):
